@@ -29,7 +29,7 @@ BUDGET = 4000            # traced lines of /repo code per call; legitimate cost 
 DFLT = "dflt"
 
 # the look-ups of these ops go through Mapping views (iteration + __getitem__): one op class for signatures
-OPCLASS = {"set": "store", "update": "store", "update2": "store", "get": "lookup", "getd": "lookup",
+OPCLASS = {"look2": "lookup", "set": "store", "update": "store", "update2": "store", "get": "lookup", "getd": "lookup",
            "del": "remove", "pop": "remove", "popd": "remove",
            "values": "values|items|==", "items": "values|items|==", "eq_dict": "values|items|==",
            "eq_cache": "values|items|=="}
@@ -123,6 +123,9 @@ class CacheSpec(Spec):
         ops += [("update", k, v) for k in K for v in V]
         ops += [("update2", k1, k2) for k1 in K for k2 in K if k1 != k2]
         ops += [("setdefault", k, v) for k in K for v in V]
+        # two look-ups / membership tests back to back, with no observation in between: state that one of them
+        # leaves behind (a memo, a "same head as last time" test) must not survive into the next observation
+        ops += [("look2", a, k1, b, k2) for a, b in (("get", "get"), ("in", "get")) for k1 in K for k2 in K if k1 != k2]
         variants = ["same", "extra"] + (["value", "missing"] if content else [])
         ops += [("eq_dict", x) for x in variants]
         ops += [("eq_cache", x) for x in variants]
@@ -204,6 +207,10 @@ class CacheSpec(Spec):
         if kind == "in":
             self.code("%r in c" % (op[1],))
             return partial(lambda: op[1] in c), ("ok", op[1] in content)
+        if kind == "look2":
+            f1, e1 = self._apply(c, (op[1], op[2]), content)
+            f2, e2 = self._apply(c, (op[3], op[4]), content)
+            return (lambda: (observe(f1), observe(f2))), ("ok", (e1, e2))
         if kind == "len":
             self.code("len(c)")
             return partial(len, c), ("ok", len(content))
@@ -290,7 +297,11 @@ class CacheSpec(Spec):
         # ---- reference successors, filtered by what the pure observer shows
         cands = set()
         for s in model:
-            cands.update(self.successors(s, op, got))
+            if kind == "look2":
+                for s1 in self.successors(s, (op[1], op[2]), got[1][0]):
+                    cands.update(self.successors(s1, (op[3], op[4]), got[1][1]))
+            else:
+                cands.update(self.successors(s, op, got))
         if order[0] != "ok":
             raise self.mm("iteration", "list(c) after %s -> %r" % (self.line(op), order))
         order = order[1]
@@ -340,7 +351,8 @@ class CacheSpec(Spec):
              "iter": "list(c)", "keys": "list(c.keys())", "values": "list(c.values())", "items": "list(c.items())",
              "getd": "c.get(%r)", "pop": "c.pop(%r)", "popd": "c.pop(%r, 'dflt')", "popitem": "c.popitem()",
              "clear": "c.clear()", "update": "c.update({%r: %r})", "update2": "c.update({%r: 'a', %r: 'b'})",
-             "setdefault": "c.setdefault(%r, %r)", "eq_dict": "c == <dict: %s>", "eq_cache": "c == <cache: %s>"}[kind]
+             "setdefault": "c.setdefault(%r, %r)", "eq_dict": "c == <dict: %s>", "eq_cache": "c == <cache: %s>",
+             "look2": "%s %r; %s %r (no observation in between)"}[kind]
         return t % tuple(op[1:]) if len(op) > 1 else t
 
     def describe(self, model):
